@@ -99,6 +99,46 @@ Theorem C08_transpile_simulates_prefix : forall env debug hw p p' s0 s0' n fuel 
                    = Some pc'.
 Proof. intros env debug hw. exact (transpile_simulates_prefix env (cfg debug hw)). Qed.
 
+(* runs in which the vanilla program FAULTS (an operand register was never written, an
+   array access is out of range, ...): the NV program faults too, inside the expansion of
+   the faulting instruction, with the same arrays and script, the same registers except
+   the scratch registers, and the expanded trace followed by the events of the part of
+   the block that ran before the fault.  Needs that every block of the regenerated table
+   reads both operand registers of its gate (decided by computation). *)
+Theorem C08_table_reads_operands : table_reads_operands gen_tables = true.
+Proof. vm_compute. reflexivity. Qed.
+
+Theorem C08_transpile_simulates_fault : forall env debug hw p p' s0 s0' fuel pcf sf,
+  transpile (cfg debug hw) p = Ok p' -> scratch_fresh (cfg debug hw) p ->
+  (forall i, In i p -> real i = true) ->
+  rel (cfg debug hw) (scratch_regs (cfg debug hw) p) s0 s0' ->
+  tracked_run env (cfg debug hw) p fuel 0 s0 = true ->
+  run env p fuel 0 s0 = (Faulted, pcf, sf) ->
+  exists fuel' pcf' sf',
+    run env (erase p') fuel' 0 s0' = (Faulted, pcf', sf') /\
+    agree (scratch_regs (cfg debug hw) p) (regs sf) (regs sf') /\ arrs sf = arrs sf' /\ script sf = script sf' /\
+    exists t extra, expand_trace (cfg debug hw) (trace sf) = Some t /\ trace sf' = (t ++ extra)%list.
+Proof.
+  intros env debug hw p p' s0 s0' fuel pcf sf Ht Hf Hr.
+  exact (transpile_simulates_fault env (cfg debug hw) p p' s0 s0' fuel pcf sf Ht Hf Hr C08_table_reads_operands).
+Qed.
+
+(* a carbon-carbon cphase whose second operand register is unwritten at run time (its
+   `set` is jumped over): the vanilla program faults at the gate, the NV program inside the
+   block, after the scratch `set` and the swap items that do not read that register *)
+Example C08_fault_nonvacuous :
+  let c := cfg false false in
+  let q := [ISet (mkReg BQ 0) 1; IJmp 3; ISet (mkReg BQ 1) 2; IGate2 Cphase (mkReg BQ 0) (mkReg BQ 1)] in
+  match transpile c q, run no_env q 50 0 (st0 []) with
+  | Ok q', (Faulted, 3%nat, _) =>
+      scratch_fresh_b c q && tracked_run no_env c q 50 0 (st0 []) && forallb real q &&
+      match run no_env (erase q') 50 0 (st0 []) with
+      | (Faulted, pc', s') => Nat.ltb 3 pc' && Nat.ltb 0 (List.length (trace s'))
+      | _ => false end
+  | _, _ => false
+  end = true.
+Proof. vm_compute. reflexivity. Qed.
+
 (* ---- behaviour: quantum half, with block soundness (property C07's rows) as the
    named hypothesis: any state space, any action of events on it, any equivalence
    (e.g. equality up to a global phase) compatible with the action *)
@@ -289,6 +329,7 @@ Qed.
 
 Print Assumptions C08_transpile_simulates.
 Print Assumptions C08_transpile_simulates_prefix.
+Print Assumptions C08_transpile_simulates_fault.
 Print Assumptions C08_transpile_simulates_quantum.
 Print Assumptions C08_transpile_simulates_quantum_c07.
 Print Assumptions C08_blocks_sound.
